@@ -199,6 +199,12 @@ func (x *fnExec) execInstr(st *State, in ssa.Instruction) bool {
 		v.decls.add("fun:CH_cap", "(declare-fun CH_cap (Int) Int)")
 		st.assume(eq("(CH_cap "+r+")", sz.S))
 		st.vals[i] = mkTerm(r, sInt, i.Type())
+		for _, mc := range x.c.AtMakeChan {
+			c := x.ctx(st)
+			c.vars["$ch"] = st.vals[i]
+			st.assume(x.evalClause(st, c, mc))
+			x.v.note("%s: definitional assumption for the fresh channel: %s", x.fnName(), mc.Src)
+		}
 	case *ssa.MakeSlice:
 		ss := v.decls.sortOf(i.Type())
 		ln := x.val(st, i.Len)
@@ -272,6 +278,7 @@ func (x *fnExec) execInstr(st *State, in ssa.Instruction) bool {
 			g := x.evalClause(st, c, ac)
 			x.emit(st, fmt.Sprintf("atsend.%s#%d", ac.Label, x.siteOrd[in]), "atsend", ac.Label, ac.Props, g, "before send: "+ac.Src)
 		}
+		x.chanInvSend(st, in, ch, val, i.Chan.Type())
 		x.chanSend(st, in, ch, val, i.Chan.Type())
 	case *ssa.Select:
 		return x.execSelect(st, i)
@@ -648,6 +655,18 @@ func (x *fnExec) chanRecv(st *State, ch Term, cht types.Type) (Term, Term) {
 	st.heapSet(v, "CH_recvn", arrSort(sInt, sInt), store(recvn, ch.S, "(ite "+okS+" (+ "+rc+" 1) "+rc+")"))
 	reca := st.heapGet(v, "CH_recva", arrSort(sInt, sInt))
 	st.heapSet(v, "CH_recva", arrSort(sInt, sInt), store(reca, ch.S, "(+ "+sel(reca, ch.S)+" 1)"))
+	// channel invariants of the element type hold for every value actually received (rely)
+	for _, ci := range x.chanInvsFor(ct.Elem()) {
+		c := x.ctx(st)
+		c.pkg = x.v.pkgByPath(ci.PkgPath)
+		c.vars["$v"] = val
+		c.vars["$ch"] = ch
+		t, err := x.evalIn(st, c, ci.E)
+		if err != nil {
+			fail("chaninv %s: %v", ci.Label, err)
+		}
+		st.assume(implies(okS, t.S))
+	}
 	return val, mkTerm(okS, sBool, types.Typ[types.Bool])
 }
 
@@ -895,5 +914,39 @@ func sortStrings(xs []string) {
 		for j := i; j > 0 && xs[j] < xs[j-1]; j-- {
 			xs[j], xs[j-1] = xs[j-1], xs[j]
 		}
+	}
+}
+
+func (x *fnExec) chanInvsFor(elem types.Type) []*ChanInv {
+	var out []*ChanInv
+	for _, ci := range x.v.cs.ChanInvs {
+		t, _ := x.v.resolveType(ci.TypeText, x.v.pkgByPath(ci.PkgPath))
+		if t != nil && types.Identical(t, elem) {
+			out = append(out, ci)
+		}
+	}
+	return out
+}
+
+// chanInvSend: every value sent on a channel must satisfy the channel invariants of the element type (guarantee).
+func (x *fnExec) chanInvSend(st *State, in ssa.Instruction, ch Term, val Term, cht types.Type) {
+	ct, ok := cht.Underlying().(*types.Chan)
+	if !ok {
+		return
+	}
+	for _, ci := range x.chanInvsFor(ct.Elem()) {
+		c := x.ctx(st)
+		c.pkg = x.v.pkgByPath(ci.PkgPath)
+		c.vars["$v"] = val
+		c.vars["$ch"] = ch
+		t, err := x.evalIn(st, c, ci.E)
+		if err != nil {
+			fail("chaninv %s: %v", ci.Label, err)
+		}
+		props := ci.Props
+		if len(props) == 0 {
+			props = x.c.Props
+		}
+		x.emit(st, fmt.Sprintf("chaninv.%s#%d", ci.Label, x.siteOrd[in]), "chaninv", ci.Label, props, t.S, "value sent must satisfy: "+ci.Src)
 	}
 }
